@@ -317,7 +317,40 @@ _m("degree_matrix", "degree_matrix", ND, _degmat(None))
 _m("degree_matrix", "degree_matrix(order=1)", ND, _degmat(1))
 _m("intersection_profile", "intersection_profile", EE, _prof)
 
+
+
+def _adjt(order):
+    import itertools
+
+    def f(H):
+        B, r = xgi.adjacency_tensor(H, order, index=True)
+        if not r:
+            return {"$noindex": tuple(B.shape) + (bool(np.all(B == 0)),)}
+        return {tuple(r[i] for i in idx): plain(B[idx]) for idx in itertools.product(range(len(r)), repeat=order + 1)}
+    return f
+
+
+_m("adjacency_tensor", "adjacency_tensor(order=1)", ('dict', ('tuple', 'n', 'n'), 'x'), _adjt(1))
+_m("adjacency_tensor", "adjacency_tensor(order=2)", ('dict', ('tuple', 'n', 'n', 'n'), 'x'), _adjt(2))
+
 BY_LABEL = {m[1]: m for m in M}
+
+# quantities OUTSIDE the property statement whose label / order dependence is only recorded (never a verdict)
+OBS = [
+    ("line_vector_centrality", "line_vector_centrality", ND, 1e-6, _quiet(lambda H: xgi.line_vector_centrality(H))),
+    ("duplicates", "edges.duplicates() representative", ('set', 'e'), 1e-9, _quiet(lambda H: set(H.edges.duplicates()))),
+    ("argmax", "nodes.degree.argmax()", 'n', 1e-9, _quiet(lambda H: H.nodes.degree.argmax())),
+]
+
+
+def observe(H, fn, fe):
+    out = {}
+    for site, label, shape, tol, f in OBS:
+        try:
+            out[label] = norm(shape, f(H), fn, fe)
+        except Exception as ex:  # noqa
+            out[label] = ("$err", type(ex).__name__)
+    return out
 
 
 def orderable(labels):
